@@ -246,7 +246,7 @@ Section Step.
     { apply NoDup_app_intro; auto. intros x Hx Hxd. destruct (Hdfacts x Hxd) as (D1 & _). exact (A4 x D1 Hx). }
     unfold inv5_at. rewrite Us.
     split; [exact Hnd'|]. split; [intros x Hx; destruct (Hseen' x Hx) as (B1 & B2 & B3); auto|].
-    destruct U as [(w & Hw & Hp & Hps & Hb)|(Hw & Hne & Hnc & Hn & Hnf & new & Hp & Hnn & Hnew & Hcr)].
+    destruct U as [(w & Hw & Hp & Hps & Hcz & Hb)|(Hw & Hne & Hnc & Hn & Hnf & new & Hp & Hnn & Hnew & Hcr)].
     - (* exit paths *)
       rewrite Hp.
       split; [apply NoDup_filter; exact A3|].
@@ -358,7 +358,7 @@ Section Step.
 
   Theorem inv5_at_step n : inv5_at c s' n.
   Proof.
-    destruct (R_effect lvl c s e s' W Hs n)
+    destruct (R_effect lvl c s e s' W (i_pend c s I1) Hs n)
       as [Hq _|_ B1 _ B3 B4 Bnd Bs Bn _ _ _ _ Bcov|_ A1 A2 A3 _ A4 A5 A6 [K|(Hph & d & Hd & Hnd & U)]].
     - destruct Hq as (Q1 & Q2 & Q3 & Q4 & _).
       apply (inv5_keep n (fun _ => true)); auto.
@@ -369,7 +369,7 @@ Section Step.
       + rewrite Q1; auto.
       + rewrite Q1. auto.
     - apply inv5_begin; auto.
-    - destruct K as (K1 & K2 & (f & K3) & K4 & K5 & K6 & K7 & K8).
+    - destruct K as (K1 & K2 & (f & K3) & K4 & K5 & K6 & K7 & K8 & K9).
       assert (Hcls : forall P : phase -> Prop,
                 (forall w, P (PShut w) -> P (PShut w)) -> True) by auto.
       apply (inv5_keep n f); auto.
